@@ -406,6 +406,8 @@ def _nokey(vals, acc):
 
 def run(ctx):
     rep = ctx.new_report()
+    from vlib.ref import noise as _noise
+    E.set_noise(_noise.strutils_noise())
     full = ctx.thorough
     # three representative keys get the whole secret alphabet in the quick tier
     # (one of them a substring of other keys); the seed only rotates which ones
